@@ -76,6 +76,14 @@ CLAIMED["C13"] = (
     "(de)serialisations; each VarIntStrategy variant must decode with the helper family it encodes with",
     "format-agreement clauses of C13; value round trips, SIMD/scalar byte identity and buffered refill behaviour are not decided",
     "DESIGN.md section 4 C13, section 3 R-PAIR")
+for _pid, _what in (("C04", "select1/select0 refuse k >= count; positions checked before unchecked word access"),
+                    ("C09", "indexed accessors of the compressed integer containers refuse reads past the end"),
+                    ("C10", "index parameters are guarded before unchecked access; push/pop examine fullness/emptiness before touching a slot")):
+    CLAIMED[_pid] = (
+        "MIR dominating-guard analysis in refusal form (parameter taint with struct fields as trusted state; state tests before raw effects)",
+        "static rule over MIR deciding ONLY the refusal clause: " + _what,
+        "one clause only; the numeric / sequence-equality substance of the property is value-level and explicitly not decided",
+        "DESIGN.md section 4 %s, section 3 R-GUARD (refusal form)" % _pid)
 NA = {
     "C11": "sortedness/permutation/multiset equality of loops over data for all inputs and configurations is value-level; no structural clause is a necessary condition short of the result itself",
     "C12": "lexicographic order of all suffixes, exact LCP and search ranges are value-level for every construction algorithm",
